@@ -114,9 +114,10 @@ pub fn classify(
     hay: &[u8],
     span: (usize, usize),
     anchored: bool,
+    earliest: bool,
 ) -> (Out, String) {
     let npat = ac.patterns_len();
-    let input = || Input::new(hay).span(span.0..span.1).anchored(anch(anchored));
+    let input = || Input::new(hay).span(span.0..span.1).anchored(anch(anchored)).earliest(earliest);
     let hay_str = std::str::from_utf8(hay).unwrap_or("");
     let repl_s: Vec<String> = (0..npat).map(|i| format!("<{}>", i)).collect();
     let repl_b: Vec<Vec<u8>> = repl_s.iter().map(|s| s.as_bytes().to_vec()).collect();
@@ -322,21 +323,26 @@ pub fn check_cell(
     } else {
         Out::Panicked
     };
-    let (got, msg) = classify(ac, api, hay, span, anchored);
+    // The `earliest` option of the input must not influence the outcome: every
+    // input-taking cell is evaluated with it off and on.
+    let modes: &[bool] = if takes_input(api) { &[false, true] } else { &[false] };
+    for &earliest in modes {
+    let (got, msg) = classify(ac, api, hay, span, anchored, earliest);
     rep.eval();
     let mut h = Fnv::new();
     for p in pats {
         h.bytes(p);
     }
-    h.str(&cfg.label()).str(api).bytes(hay).u64(span.0 as u64).u64(span.1 as u64).u64(anchored as u64);
+    h.str(&cfg.label()).str(api).bytes(hay).u64(span.0 as u64).u64(span.1 as u64).u64(anchored as u64).u64(earliest as u64);
     rep.nontrivial(h.get());
     rep.tally(if reject { "cells_expect_reject" } else { "cells_expect_accept" });
     if got != expected {
         let a = if takes_input(api) && anchored { "anchored" } else { "unanchored" };
         rep.violation(
             &format!(
-                "{}:{}:{}:{}:expected-{}:got-{}",
+                "{}{}:{}:{}:{}:expected-{}:got-{}",
                 api,
+                if earliest { "+earliest" } else { "" },
                 cfg.kind.name(),
                 cfg.sk.name(),
                 a,
@@ -369,6 +375,7 @@ pub fn check_cell(
                 .with("observed", J::s(got.name()))
                 .with("message", J::s(&msg)),
         );
+    }
     }
 }
 
